@@ -23,6 +23,8 @@ func main() {
 			subC19Stress(flag.Args())
 		case "userpanic":
 			subUserPanic(flag.Args())
+		case "callee":
+			subCallee(flag.Args())
 		case "lateframes":
 			subLateFrames(flag.Args()[0:])
 			return
@@ -74,6 +76,10 @@ func main() {
 		runC07(rep, *tier, *seed)
 	case "C04", "C05":
 		runSchedSuite(rep, *tier, *seed, prop)
+		closureCtxScenarios(rep, prop)
+		if prop == "C05" {
+			runCalleeReplay(rep, prop)
+		}
 	case "C06":
 		runC06(rep, *tier, *seed)
 	case "C01":
@@ -82,6 +88,7 @@ func main() {
 		runC02(rep, *tier, *seed)
 	case "C10":
 		runC10(rep, *tier, *seed)
+		runCalleeReplay(rep, prop)
 	default:
 		fmt.Fprintln(os.Stderr, "harness: no suite for", prop)
 		os.Exit(2)
